@@ -17,8 +17,7 @@ import AL.Gen.Availability
   Go maps are association lists; `ObjectType.Props` are kept key-sorted (`Ty.setProp`), as everywhere in the model.
   A string that is checked is a `Probe`: the parsed expression and the workflow key handed to the checker; the
   machine returns, per probe, the diagnostics of `Sema.check` under the environment in effect.
-  Not modelled here: diagnostics of the matrix values themselves (they only contribute their type), the type
-  checks `checkBool` / `checkIfCondition` put on top of the expression's type, and positions.
+  Not modelled here: diagnostics of the matrix values themselves (they only contribute their type) and positions.
 -/
 namespace AL.Visit
 open AL AL.Sema
@@ -158,11 +157,24 @@ def matrixTy (ev : Ev) : MatrixM → Ty
 
 /-! ### workflow header, jobs, steps -/
 
+/-- what the rule does with the type of a value that is one placeholder -/
+inductive PKind where
+  /-- `checkString` / `checkScriptString`: a template; objects, arrays and null must not be interpolated -/
+  | str
+  /-- `checkBool`: the type must be bool (or unknown) -/
+  | bool
+  /-- `checkInt` / `checkFloat` (`checkNumberExpression`): the type must be number (or unknown); `what` is echoed -/
+  | number (what : String)
+  /-- `checkIfCondition` for a condition written with `${{ }}`: a template like any string; every type converts to bool -/
+  | cond
+deriving Repr, DecidableEq
+
 /-- a checked string: an identifying tag, the workflow key given to `checkSemanticsOfExprNode`, the expression -/
 structure Probe where
   tag : Nat
   key : String
   e   : E
+  kind : PKind := .str
 
 structure Header where
   /-- `workflow_dispatch.inputs`: id ↦ type (`none` = no workflow_dispatch event) -/
@@ -257,8 +269,38 @@ def mkEnv (lower : String → String) (hdr : Header) (jobsTy : Option Ty) (st : 
     availCtx := av.1, availSpecial := av.2, configVars := none,
     lower := lower, fromJson := AL.Json.fromJson lower }
 
+/-- the check the rule puts on top of the expression's type; skipped when the expression itself has a diagnostic
+(`checkExprsIn` / `checkOneExpression` return nothing then) -/
+def typeDiags (k : PKind) (r : R) : List SemaErr :=
+  if !r.errs.isEmpty then []
+  else match k with
+    | .str =>
+      (match r.ty with
+      | .obj .. => [err "template-type" [tyStr r.ty]]
+      | .arr .. => [err "template-type" [tyStr r.ty]]
+      | .null => [err "template-type" [tyStr r.ty]]
+      | _ => [])
+    | .bool =>
+      (match r.ty with
+      | .bool => []
+      | .any => []
+      | t => [err "must-be-bool" [tyStr t]])
+    | .number what =>
+      (match r.ty with
+      | .number => []
+      | .any => []
+      | t => [err "must-be-number" [what, tyStr t]])
+    | .cond =>
+      -- `if: ${{ … }}` goes through `checkString` first (template check); the bool check never fails
+      (match r.ty with
+      | .obj .. => [err "template-type" [tyStr r.ty]]
+      | .arr .. => [err "template-type" [tyStr r.ty]]
+      | .null => [err "template-type" [tyStr r.ty]]
+      | _ => [])
+
 def checkProbe (lower : String → String) (hdr : Header) (jobsTy : Option Ty) (st : St) (p : Probe) : Nat × List SemaErr :=
-  (p.tag, (check (mkEnv lower hdr jobsTy st p.key) p.e).errs)
+  let r := check (mkEnv lower hdr jobsTy st p.key) p.e
+  (p.tag, r.errs ++ typeDiags p.kind r)
 
 def lookupJob (i : String) : List JobM → Option JobM
   | [] => none
